@@ -113,6 +113,7 @@ type world struct {
 	cids   map[string]cid.Cid
 	below  map[string]map[string]bool // path -> set of cid keys of the whole DAG below
 	listing map[string][]string       // dir path -> sorted entry names
+	hsize  map[string]int64           // path -> size of the entity as Head measures it
 	paths  []string
 }
 
@@ -308,7 +309,7 @@ func (s *store) allBelow(c cid.Cid) (map[string]bool, error) {
 
 func (s *store) build(spec dirSpec) (*world, error) {
 	w := &world{spec: spec, ids: map[string]int{}, names: map[string]int{}, files: map[string][]byte{}, kinds: map[string]string{},
-		cids: map[string]cid.Cid{}, below: map[string]map[string]bool{}, listing: map[string][]string{}}
+		cids: map[string]cid.Cid{}, below: map[string]map[string]bool{}, listing: map[string][]string{}, hsize: map[string]int64{}}
 	root, err := s.addDir(w, spec, "")
 	if err != nil {
 		return nil, err
@@ -322,6 +323,20 @@ func (s *store) build(spec dirSpec) (*world, error) {
 		w.below[p], err = s.allBelow(w.cids[p])
 		if err != nil {
 			return nil, err
+		}
+		if data, ok := w.files[p]; ok {
+			w.hsize[p] = int64(len(data))
+		} else {
+			// a directory: block length + the Tsize of every link (merkledag's cumulative size)
+			nd, err := s.dsv.Get(bg, w.cids[p])
+			if err != nil {
+				return nil, err
+			}
+			sz := int64(len(nd.RawData()))
+			for _, l := range nd.Links() {
+				sz += int64(l.Size)
+			}
+			w.hsize[p] = sz
 		}
 	}
 	return w, nil
@@ -338,6 +353,15 @@ type request struct {
 	To     int64  `json:"to"`
 	Dups   string `json:"dups"` // "", y, n
 	Accept bool   `json:"via_accept_header"`
+	// gateway configuration of the handler that serves this request
+	LimitKind string `json:"limit_kind"` // off ample exact below
+	Limit     int64  `json:"max_unixfs_dag_response_size"`
+	Trustless bool   `json:"deserialized_responses_off"`
+	// further parameters the CAR handler accepts
+	Order   string `json:"car_order"`   // "", dfs, unk
+	Version string `json:"car_version"` // "", 1
+	Bad     string `json:"bad_param"`   // "" or which parameter carries a value the handler rejects
+	HSize   int64  `json:"head_size"`
 }
 
 func (rq request) url(root cid.Cid) string {
@@ -349,19 +373,55 @@ func (rq request) url(root cid.Cid) string {
 	if !rq.Accept {
 		q = append(q, "format=car")
 	}
-	if rq.Scope != "" {
+	if rq.Scope != "" && rq.Bad != "scope" {
 		q = append(q, "dag-scope="+rq.Scope)
 	}
-	if rq.HasRng {
+	if rq.HasRng && !strings.HasPrefix(rq.Bad, "bytes") {
 		q = append(q, "entity-bytes="+rq.Range)
 	}
-	if rq.Dups != "" && !rq.Accept {
+	if rq.Dups != "" && !rq.Accept && rq.Bad != "dups" {
 		q = append(q, "car-dups="+rq.Dups)
+	}
+	if !rq.Accept {
+		if rq.Order != "" && rq.Bad != "order" {
+			q = append(q, "car-order="+rq.Order)
+		}
+		if rq.Version != "" && rq.Bad != "version" {
+			q = append(q, "car-version="+rq.Version)
+		}
+	}
+	switch rq.Bad {
+	case "scope":
+		q = append(q, "dag-scope=file")
+	case "order":
+		q = append(q, "car-order=bfs")
+	case "dups":
+		q = append(q, "car-dups=maybe")
+	case "version":
+		q = append(q, "car-version=2")
+	case "bytes-syntax":
+		q = append(q, "entity-bytes=5")
+	case "bytes-words":
+		q = append(q, "entity-bytes=a:b")
 	}
 	if len(q) > 0 {
 		u += "?" + strings.Join(q, "&")
 	}
 	return u
+}
+
+func (rq request) accept() string {
+	acc := "application/vnd.ipld.car"
+	if rq.Version != "" {
+		acc += "; version=" + rq.Version
+	}
+	if rq.Order != "" {
+		acc += "; order=" + rq.Order
+	}
+	if rq.Dups != "" {
+		acc += "; dups=" + rq.Dups
+	}
+	return acc
 }
 
 func (rq request) coq(w *world) string {
@@ -386,7 +446,7 @@ func (rq request) coq(w *world) string {
 		}
 		rng = vh.Opt(true, vh.Pair(vh.Z(rq.From), to))
 	}
-	return vh.App("Build_creq", vh.List(names), sc, rng, vh.Bool(rq.Dups == "y"))
+	return vh.App("Build_creq", vh.List(names), sc, rng, vh.Bool(rq.Dups == "y"), vh.Z(rq.Limit), vh.Z(rq.HSize), vh.Bool(rq.Bad != ""))
 }
 
 // semantic byte range [lo, hi) of an entity-bytes request on a file of n bytes, written independently of the
@@ -681,7 +741,39 @@ func TestC31(t *testing.T) {
 	if err != nil {
 		t.Fatal(err)
 	}
-	hd := gateway.NewHandler(gateway.Config{DeserializedResponses: true, MetricsRegistry: prometheus.NewRegistry()}, be)
+	type hkey struct {
+		limit     int64
+		trustless bool
+	}
+	handlers := map[hkey]http.Handler{}
+	handler := func(limit int64, trustless bool) http.Handler {
+		k := hkey{limit, trustless}
+		if h, ok := handlers[k]; ok {
+			return h
+		}
+		h := gateway.NewHandler(gateway.Config{DeserializedResponses: !trustless, MaxUnixFSDAGResponseSize: limit,
+			MetricsRegistry: prometheus.NewRegistry()}, be)
+		handlers[k] = h
+		return h
+	}
+	setLimit := func(rq *request, w *world, kind string) {
+		hs := w.hsize[rq.Path]
+		rq.HSize = hs
+		rq.LimitKind = kind
+		switch kind {
+		case "ample":
+			rq.Limit = hs + 4096
+		case "exact": // sz > limit is what is refused: a limit equal to the size passes
+			rq.Limit = max(hs, 1)
+		case "below":
+			rq.Limit = hs - 1
+			if rq.Limit <= 0 { // a limit of 0 means "off"
+				rq.Limit, rq.LimitKind = max(hs, 1), "exact"
+			}
+		default:
+			rq.Limit, rq.LimitKind = 0, "off"
+		}
+	}
 
 	nWorlds, perWorld := e.Pick(5, 60), e.Pick(150, 260)
 	specs := []dirSpec{corpusWorld()}
@@ -709,6 +801,26 @@ func TestC31(t *testing.T) {
 		st.Count(fmt.Sprintf("world_blocks<=%d", ((w.nblk+49)/50)*50))
 		var rqs []request
 		if wi == 0 {
+			// the size-limit pre-check must not change what the CAR contains (seeded/C31-2: it dropped the path blocks)
+			for _, p := range []string{"sub/deep", "sub/h/e7", "ten", "sub", "sub/h", ""} {
+				for _, k := range []string{"ample", "exact", "below"} {
+					for _, sc := range []string{"entity", "all", "block"} {
+						rq := request{Path: p, Scope: sc, Trustless: k == "exact"}
+						setLimit(&rq, w, k)
+						rqs = append(rqs, rq)
+					}
+				}
+			}
+			for _, bad := range []string{"scope", "order", "dups", "version", "bytes-syntax", "bytes-words"} {
+				rqs = append(rqs, request{Path: "ten", Bad: bad}, request{Path: "sub/deep", Scope: "entity", Bad: bad, Accept: bad == "scope"})
+			}
+			for _, rq := range []request{{Path: "ten", Scope: "entity", HasRng: true, From: 5, To: 2, Range: "5:2"},
+				{Path: "ten", Scope: "entity", HasRng: true, From: -2, To: -5, Range: "-2:-5"},
+				{Path: "sub/deep", Scope: "all", HasRng: true, From: 9, To: 0, Range: "9:0"},
+				{Path: "ten", Order: "unk"}, {Path: "ten", Order: "dfs", Version: "1", Dups: "y", Accept: true},
+				{Path: "sub/deep", Scope: "entity", Order: "unk", Version: "1", Dups: "n"}} {
+				rqs = append(rqs, rq)
+			}
 			for _, p := range w.paths {
 				for _, sc := range []string{"", "block", "entity", "all"} {
 					for _, d := range []string{"", "y"} {
@@ -751,20 +863,36 @@ func TestC31(t *testing.T) {
 					chunk = fileChunk(w.spec, rq.Path)
 				}
 				genRange(r, &rq, len(data), chunk)
+				if r.Intn(12) == 0 && !rq.ToAll { // a range NewDagByteRange refuses: from after to, same sign
+					rq.From, rq.To = rq.To+1+int64(r.Intn(3)), rq.From
+					if (rq.From >= 0) != (rq.To >= 0) {
+						rq.From, rq.To = 7, 3
+					}
+					rq.Range = fmt.Sprintf("%d:%d", rq.From, rq.To)
+				}
 			}
+			rq.Order = []string{"", "", "dfs", "unk"}[r.Intn(4)]
+			rq.Version = []string{"", "", "1"}[r.Intn(3)]
+			if r.Intn(25) == 0 {
+				rq.Bad = []string{"scope", "order", "dups", "version", "bytes-syntax", "bytes-words"}[r.Intn(6)]
+				if rq.Bad == "bytes-syntax" || rq.Bad == "bytes-words" {
+					rq.HasRng, rq.Range = false, ""
+				}
+			}
+			rq.Trustless = r.Intn(4) == 0
+			setLimit(&rq, w, []string{"off", "off", "ample", "ample", "exact", "below"}[r.Intn(6)])
 			rqs = append(rqs, rq)
 		}
 		for _, rq := range rqs {
+			if rq.LimitKind == "" {
+				setLimit(&rq, w, "off")
+			}
 			req := httptest.NewRequest("GET", rq.url(w.root), nil)
 			if rq.Accept {
-				acc := "application/vnd.ipld.car"
-				if rq.Dups != "" {
-					acc += "; dups=" + rq.Dups
-				}
-				req.Header.Set("Accept", acc)
+				req.Header.Set("Accept", rq.accept())
 			}
 			rec := httptest.NewRecorder()
-			hd.ServeHTTP(rec, req)
+			handler(rq.Limit, rq.Trustless).ServeHTTP(rec, req)
 			replay := map[string]any{"world": w.spec, "request": rq, "url": rq.url(w.root), "status": rec.Code}
 			v := decodeCAR(rec.Body.Bytes())
 			streamErr := rec.Header().Get("X-Stream-Error") != "" || v.decErr != nil
@@ -803,6 +931,14 @@ func TestC31(t *testing.T) {
 			st.Count("scope=" + sc)
 			st.Count("terminal=" + w.kinds[rq.Path])
 			st.Count("dups=" + rq.Dups)
+			st.Count("limit=" + rq.LimitKind)
+			st.Count(fmt.Sprintf("trustless-only=%v", rq.Trustless))
+			if rq.Bad != "" {
+				st.Count("bad-param=" + rq.Bad)
+			}
+			if rq.Order != "" {
+				st.Count("car-order=" + rq.Order)
+			}
 			st.Count(fmt.Sprintf("status=%d", rec.Code))
 			if rq.HasRng {
 				switch {
@@ -823,21 +959,61 @@ func TestC31(t *testing.T) {
 				st.Sample(replay, 6)
 			}
 		}
-		// raw block responses: the body is exactly the bytes that hash to the requested CID
+		// raw block responses: the body is exactly the bytes that hash to the requested CID — by CID and by path,
+		// on a trustless-only gateway, and under a size limit (at the block size: served; below: 410)
+		rawGet := func(hd http.Handler, url string) *httptest.ResponseRecorder {
+			rec := httptest.NewRecorder()
+			hd.ServeHTTP(rec, httptest.NewRequest("GET", url, nil))
+			st.Count("raw-block-requests")
+			return rec
+		}
 		for _, p := range w.paths {
 			c := w.cids[p]
-			req := httptest.NewRequest("GET", "/ipfs/"+c.String()+"?format=raw", nil)
-			rec := httptest.NewRecorder()
-			hd.ServeHTTP(rec, req)
-			st.Count("raw-block-requests")
-			c2, err := c.Prefix().Sum(rec.Body.Bytes())
-			if rec.Code != 200 || err != nil || !c2.Equals(c) {
-				st.Violate(fmt.Sprintf("raw block response for %s: status %d, body does not hash to the CID", c, rec.Code), "",
-					map[string]any{"world": w.spec, "path": p})
-			}
 			orig, _ := s.bs.Get(bg, c)
-			if orig != nil && !bytes.Equal(orig.RawData(), rec.Body.Bytes()) {
-				st.Violate("raw block response differs from the stored block", "", map[string]any{"world": w.spec, "path": p})
+			if orig == nil {
+				st.Violate("harness: block not in the store", "", map[string]any{"world": w.spec, "path": p})
+				continue
+			}
+			bsz := int64(len(orig.RawData()))
+			byPath := "/ipfs/" + w.root.String()
+			if p != "" {
+				byPath += "/" + p
+			}
+			type probe struct {
+				what string
+				hd   http.Handler
+				url  string
+				want int
+			}
+			probes := []probe{
+				{"by CID", handler(0, false), "/ipfs/" + c.String() + "?format=raw", 200},
+				{"by path", handler(0, false), byPath + "?format=raw", 200},
+				{"by CID, trustless-only gateway", handler(0, true), "/ipfs/" + c.String() + "?format=raw", 200},
+				{"by CID, limit = block size", handler(max(bsz, 1), false), "/ipfs/" + c.String() + "?format=raw", 200},
+			}
+			if p != "" {
+				probes = append(probes, probe{"by path, trustless-only gateway", handler(0, true), byPath + "?format=raw", 406})
+			}
+			if bsz > 1 {
+				probes = append(probes, probe{"by CID, limit below the block size", handler(bsz-1, r.Intn(2) == 0), "/ipfs/" + c.String() + "?format=raw", 410})
+			}
+			for _, pr := range probes {
+				rec := rawGet(pr.hd, pr.url)
+				rp := map[string]any{"world": w.spec, "path": p, "probe": pr.what, "url": pr.url, "status": rec.Code}
+				if rec.Code != pr.want {
+					st.Violate(fmt.Sprintf("raw block response (%s): status %d, expected %d", pr.what, rec.Code, pr.want), "", rp)
+					continue
+				}
+				if pr.want != 200 {
+					continue
+				}
+				c2, err := c.Prefix().Sum(rec.Body.Bytes())
+				if err != nil || !c2.Equals(c) {
+					st.Violate(fmt.Sprintf("raw block response (%s) for %s: body does not hash to the CID", pr.what, c), "", rp)
+				}
+				if !bytes.Equal(orig.RawData(), rec.Body.Bytes()) {
+					st.Violate("raw block response ("+pr.what+") differs from the stored block", "", rp)
+				}
 			}
 		}
 	}
